@@ -1,4 +1,5 @@
 import Gimli.Lemmas.WOpExpr
+import Gimli.Lemmas.WOpEval
 /-!
 # C15 — Written expressions decode to the same operations, branches and references
 
@@ -20,6 +21,7 @@ emitted length fit `u64`", and nothing else.
 namespace Gimli.Props.C15
 open Gimli Gimli.WOp
 open Gimli.Op (Encoding)
+open Gimli.Eval (Config Mach)
 
 /-! ## 1. the predicted size is the emitted length -/
 
@@ -197,6 +199,68 @@ theorem written_refs_known (e : Endian) (enc : Encoding) (hasRefs : Bool) (offs 
   obtain ⟨o, _, hw⟩ := hw
   exact exprWriteOps_refsKnown e enc hasRefs offs ops o pos bs fx hw
 
+/-- **Section references (`call_ref`, `GNU_variable_value`, `implicit_pointer`) resolve to the
+intended entry.** Such an operation records exactly one fix-up, located at its reference field and
+naming the intended `(unit, entry)`; if that entry has no `.debug_info` offset the fix-up pass fails
+with `InvalidReference` (never a wrong offset); otherwise, after `write_debug_info_fixups` has
+patched the field, the reader decodes the operation with that entry's offset `o` as its reference
+(`image … o op`), consuming exactly the emitted bytes. -/
+theorem section_ref_resolves (e : Endian) (enc : Encoding) (uo : UnitOffs) (hasRefs : Bool)
+    (op : Operation) (r : DRef) (size : Nat) (hs : sectionRef enc op = some (r, size))
+    (offsets : List Nat) (pos : Nat) (bs : Bytes) (fx : List Fixup) (rest : Bytes)
+    (hw : opWrite e enc uo hasRefs offsets pos op = .ok (bs, fx)) (hwf : OpWf op)
+    (info : Nat → Nat → Option Nat) :
+    ∃ u en, r = .entry u en ∧ fx = [⟨pos + 1, size, u, en⟩] ∧
+      (info u en = none → applyFixups e info pos bs fx = .err .wInvalidReference) ∧
+      ∀ o, info u en = some o → o < 2 ^ 64 → ∀ bs', applyFixups e info pos bs fx = .ok bs' →
+        Op.parse e enc (bs' ++ rest) = .ok ((image enc (fun _ => none) 0 [] o op).getD .nop, rest) :=
+  sectionRef_fixed e enc uo hasRefs op r size hs offsets pos bs fx rest hw hwf info
+
+/-! ## 5. evaluation -/
+
+/-- **Evaluating the emitted bytes executes the operations as built — one step** (`eval_same`,
+partial). Let `pre ++ op :: suf` be written successfully to `bs`, and let the evaluator (C07's Model,
+any configuration with the same byte order and encoding) stand at the start of `op` in `bs`. Then
+
+* `evaluate_one_operation` = `execute` of the reader-side image of `op` as built, with the reader
+  moved past exactly the bytes `op` emitted — whichever shorter encoding the writer chose;
+* and if that step returns, the bytecode is unchanged and the reader stands again at the start of
+  an operation as built, or at the end: the next one, or — for a taken `skip`/`bra` — operation `t`.
+
+So by induction every step of an evaluation of `bs` that stays inside `bs` executes an operation as
+built, and control flows between operations exactly as the builder's indices say.
+**Gap** (why `_partial`): the induction through `evaluate_internal` itself (iteration counter,
+`end_of_expression`, the look-ahead decode after a location-completing operation, the expression
+stack while a `DW_OP_call*` target runs foreign bytecode, the `resume_with_*` paths) is not
+carried out in Lean; the whole-run equality is checked dynamically by the harness's evaluation-trace
+oracle (emitted bytes vs an independent plain re-encoding, same scripted answers). -/
+theorem eval_same_partial (e : Endian) (enc : Encoding) (uo : UnitOffs) (hasRefs : Bool)
+    (c : Config) (hce : c.endian = e) (hcenc : c.encoding = enc)
+    (pre suf : List Operation) (op : Operation) (pos : Nat) (bs : Bytes) (fx : List Fixup)
+    (hoffs : ∀ f, uo = some f → ∀ en o, f en = some o → o < 2 ^ 64)
+    (hL : bs.length < 2 ^ 64) (hwf : OpWf op)
+    (hw : exprWrite e enc uo hasRefs pos (pre ++ op :: suf) = .ok (bs, fx)) :
+    ∃ (offs : List Nat) (b1 : Bytes) (f1 : List Fixup) (bo : Bytes) (fo : List Fixup) (img : Op.Operation),
+      exprOffsets enc uo (pre ++ op :: suf) pos = .ok offs ∧
+      exprWriteOps e enc uo hasRefs offs pos pre = .ok (b1, f1) ∧
+      opWrite e enc uo hasRefs offs (pos + b1.length) op = .ok (bo, fo) ∧
+      opImage e enc uo hasRefs offs (pos + b1.length) op = some img ∧
+      ∀ m : Mach, m.bytecode = bs → m.pc = bs.drop b1.length →
+        Eval.evaluateOneOperation c m = Eval.execute c img { m with pc := bs.drop (b1.length + bo.length) } ∧
+        ∀ r m', Eval.evaluateOneOperation c m = .ok (r, m') →
+          m'.bytecode = bs ∧
+          ∃ j bj fj, j ≤ (pre ++ op :: suf).length ∧
+            exprWriteOps e enc uo hasRefs offs pos ((pre ++ op :: suf).take j) = .ok (bj, fj) ∧
+            m'.pc = bs.drop bj.length :=
+  eval_step_aux e enc uo hasRefs c hce hcenc pre suf op pos bs fx hoffs hL hwf hw
+
+/-- every operation other than `skip`/`bra` leaves the evaluator's reader position and bytecode
+untouched (used above; stated for C07's `execute` over all reader operations) -/
+theorem execute_keeps_pc (c : Config) (op : Op.Operation) (m : Mach)
+    (hs : ∀ t, op ≠ .skip t) (hb : ∀ t, op ≠ .bra t) (r : Eval.OpResult) (m' : Mach)
+    (h : Eval.execute c op m = .ok (r, m')) : m'.pc = m.pc ∧ m'.bytecode = m.bytecode :=
+  (execute_keeps c op m hs hb).out r m' h
+
 /-! ## non-vacuity -/
 
 example : exprWrite .little ⟨8, .dwarf32, 4⟩ (some fun _ => some 12) true 0
@@ -208,8 +272,9 @@ example : exprWrite .little ⟨8, .dwarf32, 4⟩ (some fun _ => some 12) true 0
 example : OpWf (.registerOffset 65535 (-9223372036854775808)) ∧ OpWf (.piece 2305843009213693951) ∧
     ¬ OpWf (.piece 2305843009213693952) ∧ OpWf (.simple 0x22) ∧ ¬ OpWf (.simple 0x03) := by decide
 
-example : isBranchTo (.branch 7) 7 ∧ directRef (.derefType false 4 3) = some 3 := by
-  exact ⟨Or.inr rfl, rfl⟩
+example : isBranchTo (.branch 7) 7 ∧ directRef (.derefType false 4 3) = some 3 ∧
+    sectionRef ⟨4, .dwarf64, 2⟩ (.implicitPointer (.entry 1 0) (-1)) = some (.entry 1 0, 4) := by
+  exact ⟨Or.inr rfl, rfl, rfl⟩
 
 -- a backward branch over 32765 bytes fits (-32768), over 32766 bytes does not
 example : opWrite .little ⟨8, .dwarf32, 5⟩ none false [0, 32765, 32768] 32765 (.skip 0) =
